@@ -3,8 +3,8 @@ import ScVerif.C07.EventOwnLemmas
 # C07 — who holds which message: stored messages are shared, filtered clones are private
 
 With a ghost owner on every message cell (`none`: a writer stored it — the stored message itself; `some i`: a clone made
-by the read-mask filter of subscriber `i`), for ANY interleaving of stores, sends that carry stored messages (`OKfrom`:
-what writers do) and pipeline steps of any number of subscribers (backpressure / lossy, masked or not, Collection or
+by the read-mask filter of subscriber `i`), for ANY interleaving of stores, sends and seeds that carry stored messages
+(`OKfrom`: what writers and `Pull` do) and pipeline steps of any number of subscribers (backpressure / lossy, masked or not, Collection or
 Value, include deciding anything, before or behind the merger):
 
 * `C07_unmasked_events_carry_stored_messages` — the values of every event an UNMASKED subscriber's consumer has received
